@@ -131,5 +131,5 @@ func (r *reverseReader) HasNext() bool {
 	}
 
 	firstOffset := r.wal.FirstOffset()
-	return firstOffset != InvalidOffset && r.nextOffset != (firstOffset-1)
+	return firstOffset != InvalidOffset && r.nextOffset >= firstOffset
 }
